@@ -517,8 +517,13 @@ class Chain(BaseChain):
     def _acceptance_ratio(self, logp, logl, proposal,
                           current_logp, current_logl, current_pos):
         """Calculates the acceptance ratio and evaluates acceptance"""
-        logar = (logp + logl * self.beta
-                 - current_logp - current_logl * self.beta)
+        if self.beta == 0:
+            # at infinite temperature the likelihood does not enter, also not
+            # where it vanishes (0 * -inf would be nan)
+            logar = logp - current_logp
+        else:
+            logar = (logp + logl * self.beta
+                     - current_logp - current_logl * self.beta)
         if not self.proposal_dist.symmetric:
             logar += self.proposal_dist.logpdf(current_pos, proposal) - \
                      self.proposal_dist.logpdf(proposal, current_pos)
